@@ -1,6 +1,6 @@
 //@ tu: libxcm/tp/tls/xcm_tp_btls.c
 //@ enforce: process_ssl_event
-//@ props: C06
+//@ props: C06 C07
 //@ expect: postcondition>=1 canary=7
 #include "_unit.h"
 void harness(void)
